@@ -648,6 +648,13 @@ func (nfs *Nfs) NFSPROC3_RENAME(args nfstypes.RENAME3args) nfstypes.RENAME3res {
 			}
 			dipfrom = inodes[0]
 			dipto = inodes[1]
+			if dipfrom.Gen != fromh.Gen || dipto.Gen != toh.Gen {
+				// lockInodes resolves by inode number only; a handle of an
+				// earlier generation is stale
+				errRet(op, &reply.Status, nfstypes.NFS3ERR_STALE)
+				done = true
+				break
+			}
 		}
 
 		util.DPrintf(3, "from %v to %v\n", dipfrom, dipto)
